@@ -82,6 +82,10 @@ func runC09(c *Ctx) {
 		for _, cd := range t.cols {
 			c.R.Dist["cell:"+cd.key]++
 		}
+		c.R.Dist[cfg.PadKey()]++
+		if nc%8 != 0 && rd.absentSeen && (cfg.PadCols != 0 || cfg.PadNull != 0) {
+			c.R.Dist["padding bits set, partial images, column count not a multiple of 8"]++
+		}
 		if k%40 == 0 {
 			c.R.Sample(vh.Sprintf("rows event: cfg=%s kind=%d cols=%d rows=%d bytes=%d", cfg, kind, nc, nrows, len(ev)))
 		}
